@@ -56,8 +56,28 @@ package phase0
 //@   property C03
 //@   opt noalloc
 //@   requires v != nil
-//@   ensures err == nil ==> r == (v_act(v) <= epoch && epoch < v_exit(v))
+//@   ensures err == nil ==> r == (v_act(v) <= epoch && epoch < v_exit(n_val_write, v))
 //@   ensures err != nil ==> !r
+
+// initiate_validator_exit (C01: exits and slashings in blocks; C02: ejections): a validator without an exit epoch
+// gets the exit queue's epoch - one later when that epoch already holds churn-limit exits - and a withdrawable
+// epoch MIN_VALIDATOR_WITHDRAWABILITY_DELAY after it; a validator that has an exit epoch is left alone.
+//@ func InitiateValidatorExit(spec, epc, state, index) err
+//@   property C01 C02
+//@   use reg_len_nonneg, exq_count_zero
+//@   requires spec != nil && epc != nil && state != nil && epc.CurrentEpoch != nil && spec.CHURN_LIMIT_QUOTIENT != 0
+//@   assigns ghost(n_viter), ghost(viter_pos), ghost(viter_reg), ghost(n_val_write), ghost(n_set_exit), ghost(set_exit_v), ghost(set_exit_val), ghost(n_set_wd), ghost(set_wd_v), ghost(set_wd_val)
+//@   ensures already: err == nil && old(v_exit(n_val_write, reg_val(st_vals(state), index))) != common.FAR_FUTURE_EPOCH ==> n_val_write == old(n_val_write) && n_set_exit == old(n_set_exit) && n_set_wd == old(n_set_wd)
+//@   ensures queued_once: err == nil && old(v_exit(n_val_write, reg_val(st_vals(state), index))) == common.FAR_FUTURE_EPOCH && old(epc.CurrentEpoch.Epoch) + 1 + spec.MAX_SEED_LOOKAHEAD < 4611686018427387904 && reg_len(st_vals(state)) < 4611686018427387904 ==> n_set_exit == old(n_set_exit) + 1 && n_set_wd == old(n_set_wd) + 1
+//@   ensures queued_who: err == nil && old(v_exit(n_val_write, reg_val(st_vals(state), index))) == common.FAR_FUTURE_EPOCH && old(epc.CurrentEpoch.Epoch) + 1 + spec.MAX_SEED_LOOKAHEAD < 4611686018427387904 && reg_len(st_vals(state)) < 4611686018427387904 ==> set_exit_v == reg_val(st_vals(state), index) && set_wd_v == reg_val(st_vals(state), index)
+//@   ensures queued_exit_epoch: err == nil && old(v_exit(n_val_write, reg_val(st_vals(state), index))) == common.FAR_FUTURE_EPOCH && old(epc.CurrentEpoch.Epoch) + 1 + spec.MAX_SEED_LOOKAHEAD < 4611686018427387904 && reg_len(st_vals(state)) < 4611686018427387904 ==> set_exit_val == (let m := exq_max(old(n_val_write), st_vals(state), reg_len(st_vals(state)), old(epc.CurrentEpoch.Epoch) + 1 + spec.MAX_SEED_LOOKAHEAD) in ite(exq_count(old(n_val_write), st_vals(state), reg_len(st_vals(state)), m) >= max(spec.MIN_PER_EPOCH_CHURN_LIMIT, old(len(epc.CurrentEpoch.ActiveIndices)) / spec.CHURN_LIMIT_QUOTIENT), m + 1, m))
+//@   ensures queued_withdrawable: err == nil && old(v_exit(n_val_write, reg_val(st_vals(state), index))) == common.FAR_FUTURE_EPOCH && old(epc.CurrentEpoch.Epoch) + 1 + spec.MAX_SEED_LOOKAHEAD < 4611686018427387904 && reg_len(st_vals(state)) < 4611686018427387904 ==> set_wd_val == ((let m := exq_max(old(n_val_write), st_vals(state), reg_len(st_vals(state)), old(epc.CurrentEpoch.Epoch) + 1 + spec.MAX_SEED_LOOKAHEAD) in ite(exq_count(old(n_val_write), st_vals(state), reg_len(st_vals(state)), m) >= max(spec.MIN_PER_EPOCH_CHURN_LIMIT, old(len(epc.CurrentEpoch.ActiveIndices)) / spec.CHURN_LIMIT_QUOTIENT), m + 1, m)) + spec.MIN_VALIDATOR_WITHDRAWABILITY_DELAY) % 18446744073709551616
+//@   loop 1
+//@     invariant validators == st_vals(state) && viter_reg == validators && fnid(valIterNext) == n_viter && 0 <= viter_pos && viter_pos <= reg_len(validators)
+//@     invariant n_val_write == old(n_val_write) && n_set_exit == old(n_set_exit) && n_set_wd == old(n_set_wd) && v == reg_val(st_vals(state), index)
+//@     invariant old(epc.CurrentEpoch.Epoch) + 1 + spec.MAX_SEED_LOOKAHEAD < 4611686018427387904 ==> exitQueueEnd == exq_max(n_val_write, validators, viter_pos, old(epc.CurrentEpoch.Epoch) + 1 + spec.MAX_SEED_LOOKAHEAD) && exitQueueEnd != common.FAR_FUTURE_EPOCH
+//@     invariant old(epc.CurrentEpoch.Epoch) + 1 + spec.MAX_SEED_LOOKAHEAD < 4611686018427387904 && reg_len(validators) < 4611686018427387904 ==> exitQueueEndChurn == exq_count(n_val_write, validators, viter_pos, exitQueueEnd) && exitQueueEndChurn <= viter_pos
+//@     invariant forall k :: {reg_val(validators, k)} 0 <= k && k < viter_pos && v_exit(n_val_write, reg_val(validators, k)) != common.FAR_FUTURE_EPOCH ==> v_exit(n_val_write, reg_val(validators, k)) <= exitQueueEnd
 
 //@ func ValidateVoluntaryExit(spec, epc, state, signedExit) err
 //@   property C03
@@ -67,8 +87,8 @@ package phase0
 //@   assigns heap(CachedPubkey.decompressed)
 //@   names (err == nil) == exit_ok(spec, epc, state, *signedExit)
 //@   ensures index: err == nil ==> !st_vals_err(state) && reg_valid(st_vals(state), signedExit.Message.ValidatorIndex)
-//@   ensures active: err == nil ==> (let v := reg_val(st_vals(state), signedExit.Message.ValidatorIndex) in v_act(v) <= epc.CurrentEpoch.Epoch && epc.CurrentEpoch.Epoch < v_exit(v))
-//@   ensures not_exiting: err == nil ==> v_exit(reg_val(st_vals(state), signedExit.Message.ValidatorIndex)) == common.FAR_FUTURE_EPOCH
+//@   ensures active: err == nil ==> (let v := reg_val(st_vals(state), signedExit.Message.ValidatorIndex) in v_act(v) <= epc.CurrentEpoch.Epoch && epc.CurrentEpoch.Epoch < v_exit(n_val_write, v))
+//@   ensures not_exiting: err == nil ==> v_exit(n_val_write, reg_val(st_vals(state), signedExit.Message.ValidatorIndex)) == common.FAR_FUTURE_EPOCH
 //@   ensures epoch_reached: err == nil ==> signedExit.Message.Epoch <= epc.CurrentEpoch.Epoch
 //@   ensures aged: err == nil ==> (v_act(reg_val(st_vals(state), signedExit.Message.ValidatorIndex)) + spec.SHARD_COMMITTEE_PERIOD) % 18446744073709551616 <= epc.CurrentEpoch.Epoch
 //@   ensures signature: err == nil ==> !state_domain_err(state, common.DOMAIN_VOLUNTARY_EXIT, signedExit.Message.Epoch) && sig_valid(signedExit.Signature) && (exists p CPubP :: pub_valid(p.Compressed) && bls_ok(p.Compressed, seq(signing_root(exit_root(signedExit.Message), state_domain(state, common.DOMAIN_VOLUNTARY_EXIT, signedExit.Message.Epoch))), signedExit.Signature))
@@ -276,6 +296,7 @@ package phase0
 //@   loop *
 //@     invariant ctx_t >= old(ctx_t) && (old(ctx_seen) || !ctx_seen)
 //@     invariant ctx_t > old(ctx_t) ==> !ctx_cancelled(ctx, old(ctx_t))
+//@   assigns ghost(n_viter), ghost(viter_pos), ghost(viter_reg), ghost(n_val_write), ghost(n_set_exit), ghost(set_exit_v), ghost(set_exit_val), ghost(n_set_wd), ghost(set_wd_v), ghost(set_wd_val)
 
 //@ func AttestationRewardsAndPenalties(ctx, spec, epc, attesterData, state) (r0, err)
 //@   property C18
@@ -473,6 +494,7 @@ package phase0
 //@   loop *
 //@     invariant ctx_t >= old(ctx_t) && (old(ctx_seen) || !ctx_seen)
 //@     invariant ctx_t > old(ctx_t) ==> !ctx_cancelled(ctx, old(ctx_t))
+//@   assigns ghost(n_viter), ghost(viter_pos), ghost(viter_reg), ghost(n_val_write), ghost(n_set_exit), ghost(set_exit_v), ghost(set_exit_val), ghost(n_set_wd), ghost(set_wd_v), ghost(set_wd_val)
 
 //@ func ProcessRandaoReveal(ctx, spec, epc, state, reveal) err
 //@   property C18 C03 C01
@@ -507,6 +529,7 @@ package phase0
 //@   loop *
 //@     invariant ctx_t >= old(ctx_t) && (old(ctx_seen) || !ctx_seen)
 //@     invariant ctx_t > old(ctx_t) ==> !ctx_cancelled(ctx, old(ctx_t))
+//@   assigns ghost(n_viter), ghost(viter_pos), ghost(viter_reg), ghost(n_val_write), ghost(n_set_exit), ghost(set_exit_v), ghost(set_exit_val), ghost(n_set_wd), ghost(set_wd_v), ghost(set_wd_val)
 
 //@ func ProcessEpochSlashings(ctx, spec, epc, flats, state) err
 //@   property C18
@@ -539,6 +562,7 @@ package phase0
 //@     invariant ctx_t > old(ctx_t) ==> !ctx_cancelled(ctx, old(ctx_t))
 //@   assigns ghost(n_eth1_reset), ghost(n_slash_reset), ghost(last_slash_reset), ghost(n_set_mix), ghost(last_set_mix_epoch), ghost(last_set_mix), ghost(n_hist_update)
 //@   assigns ghost(n_set_prevjust), ghost(set_prevjust), ghost(n_set_curjust), ghost(set_curjust), ghost(n_set_fin), ghost(set_fin), ghost(n_set_jbits), ghost(set_jbits)
+//@   assigns ghost(n_viter), ghost(viter_pos), ghost(viter_reg), ghost(n_val_write), ghost(n_set_exit), ghost(set_exit_v), ghost(set_exit_val), ghost(n_set_wd), ghost(set_wd_v), ghost(set_wd_val)
 
 //@ func (state *BeaconStateView) ProcessBlock(ctx, spec, epc, benv) err
 //@   property C18
@@ -556,6 +580,7 @@ package phase0
 //@     invariant ctx_t > old(ctx_t) ==> !ctx_cancelled(ctx, old(ctx_t))
 //@   assigns ghost(n_set_mix), ghost(last_set_mix_epoch), ghost(last_set_mix)
 //@   assigns ghost(n_set_lhdr), ghost(set_lhdr)
+//@   assigns ghost(n_viter), ghost(viter_pos), ghost(viter_reg), ghost(n_val_write), ghost(n_set_exit), ghost(set_exit_v), ghost(set_exit_val), ghost(n_set_wd), ghost(set_wd_v), ghost(set_wd_val)
 
 //@ func ProcessVoluntaryExits(ctx, spec, epc, state, ops) err
 //@   property C18
@@ -570,5 +595,6 @@ package phase0
 //@   loop *
 //@     invariant ctx_t >= old(ctx_t) && (old(ctx_seen) || !ctx_seen)
 //@     invariant ctx_t > old(ctx_t) ==> !ctx_cancelled(ctx, old(ctx_t))
+//@   assigns ghost(n_viter), ghost(viter_pos), ghost(viter_reg), ghost(n_val_write), ghost(n_set_exit), ghost(set_exit_v), ghost(set_exit_val), ghost(n_set_wd), ghost(set_wd_v), ghost(set_wd_val)
 
 // END C18 generated
